@@ -266,4 +266,84 @@ theorem pairRole_eq (a b : Row) {t u : Tid} (hne : t ≠ u) (heq : pairRole a b 
         · rw [pairRole_ge a b u0 u1] at heq
           exact absurd (aux_c _ _ _ _ heq) hne
 
+/-! ### grouped evaluation -/
+
+theorem mem_violationsOf {multi : List Role} {T : List Row} {a : Row} {v : Viol} :
+    v ∈ violationsOf multi T a ↔
+      ∃ b, b ∈ T ∧ conflict multi a b = true ∧ shareLock a b = false ∧ v = (a.field, normPair a.role b.role) := by
+  unfold violationsOf
+  simp only [List.mem_filterMap]
+  constructor
+  · rintro ⟨b, hb, h⟩
+    refine ⟨b, hb, ?_⟩
+    split at h
+    · next hc =>
+      simp only [Bool.and_eq_true, Bool.not_eq_true'] at hc
+      exact ⟨hc.1, hc.2, (Option.some.inj h).symm⟩
+    · cases h
+  · rintro ⟨b, hb, hc, hs, rfl⟩
+    exact ⟨b, hb, by simp [hc, hs]⟩
+
+theorem inj_of_nodup_map {α β : Type} (f : α → β) : ∀ (l : List α), (l.map f).Nodup →
+    ∀ x, x ∈ l → ∀ y, y ∈ l → f x = f y → x = y := by
+  intro l
+  induction l with
+  | nil => intro _ x hx; cases hx
+  | cons z zs ih =>
+    intro hnd x hx y hy hf
+    rw [List.map_cons, List.nodup_cons] at hnd
+    rcases List.mem_cons.mp hx with hx | hx <;> rcases List.mem_cons.mp hy with hy | hy
+    · rw [hx, hy]
+    · exact absurd (hx ▸ hf ▸ List.mem_map_of_mem (f := f) hy) hnd.1
+    · exact absurd (hy ▸ hf ▸ List.mem_map_of_mem (f := f) hx) hnd.1
+    · exact ih hnd.2 x hx y hy hf
+
+theorem field_of_mem_groupRows {g : Group} {a : Row} (h : a ∈ groupRows g) : a.field = g.1 := by
+  unfold groupRows at h
+  obtain ⟨r, _, rfl⟩ := List.mem_map.mp h
+  rfl
+
+theorem mem_flattenG {G : List Group} {a : Row} : a ∈ flattenG G ↔ ∃ g, g ∈ G ∧ a ∈ groupRows g := by
+  simp [flattenG, List.mem_flatMap]
+
+/-- group-by-group evaluation finds exactly the triples of the flat checker -/
+theorem mem_violationsG {multi : List Role} {G : List Group} (hk : keysNodup G = true) {v : Viol} :
+    v ∈ violationsG multi G ↔ v ∈ violations multi (flattenG G) := by
+  have hnd : (G.map (·.1)).Nodup := by simpa [keysNodup] using hk
+  rw [mem_violations]
+  unfold violationsG
+  rw [mem_dedup]
+  simp only [List.mem_flatMap]
+  constructor
+  · rintro ⟨g, hg, a, ha, hv⟩
+    obtain ⟨b, hb, hc, hs, rfl⟩ := mem_violationsOf.mp hv
+    exact ⟨a, mem_flattenG.mpr ⟨g, hg, ha⟩, b, mem_flattenG.mpr ⟨g, hg, hb⟩, hc, hs, rfl⟩
+  · rintro ⟨a, ha, b, hb, hc, hs, rfl⟩
+    obtain ⟨g1, hg1, ha1⟩ := mem_flattenG.mp ha
+    obtain ⟨g2, hg2, hb2⟩ := mem_flattenG.mp hb
+    have hfield : a.field = b.field := by
+      simp only [conflict, Bool.and_eq_true, beq_iff_eq] at hc
+      exact hc.1.1
+    have hkey : g1.1 = g2.1 := by
+      rw [← field_of_mem_groupRows ha1, ← field_of_mem_groupRows hb2]; exact hfield
+    have hgg : g1 = g2 := inj_of_nodup_map (·.1) G hnd g1 hg1 g2 hg2 hkey
+    subst hgg
+    exact ⟨g1, hg1, a, ha1, mem_violationsOf.mpr ⟨b, hb2, hc, hs, rfl⟩⟩
+
+theorem violationsG_nil_iff {multi : List Role} {G : List Group} (hk : keysNodup G = true) :
+    violationsG multi G = [] ↔ violations multi (flattenG G) = [] := by
+  constructor
+  · intro h
+    cases hv : violations multi (flattenG G) with
+    | nil => rfl
+    | cons v vs =>
+      have : v ∈ violationsG multi G := (mem_violationsG hk).mpr (by rw [hv]; exact List.mem_cons_self ..)
+      rw [h] at this; cases this
+  · intro h
+    cases hv : violationsG multi G with
+    | nil => rfl
+    | cons v vs =>
+      have : v ∈ violations multi (flattenG G) := (mem_violationsG hk).mp (by rw [hv]; exact List.mem_cons_self ..)
+      rw [h] at this; cases this
+
 end EphVerif.Lockset
